@@ -18,7 +18,7 @@ ulimit -v 62914560 2>/dev/null || true
 case "${1:-}" in
   replay)   exec "$HERE/bin/simcheck" replay "$2" ;;
   selftest) shift; exec "$HERE/bin/simcheck" selftest "$@" ;;
-  setup)    exit 0 ;;
+  setup)    exec "$HERE/bin/simcheck" warm ;;
   C01|C10|C11|C12|C13)
             exec "$HERE/bin/simcheck" check -prop "$1" -tier "${2:-${VERIF_TIER:-quick}}" ;;
   *) echo "usage: check.sh <C01|C10|C11|C12|C13> <quick|thorough> | replay <file> | selftest determinism" >&2; exit 2 ;;
